@@ -2,8 +2,9 @@ package scen
 
 import (
 	"fmt"
-	"strconv"
+	"github.com/lugu/qiloop/type/object"
 	"math/rand/v2"
+	"strconv"
 	"strings"
 	"sync"
 
@@ -42,6 +43,9 @@ func (c19) Gen(r *rand.Rand, tier string, run int) *core.Case {
 	c.Params["multi_addr"] = r.IntN(2)
 	c.Params["addr_order"] = r.IntN(2)
 	c.Params["subscribe"] = r.IntN(2)
+	if r.IntN(6) == 0 {
+		c.Params["testrange"] = 1
+	}
 	if r.IntN(4) == 0 {
 		c.Params["early_service"] = 1
 		c.Params["early_delay"] = r.IntN(120)
@@ -67,7 +71,7 @@ func (c19) Gen(r *rand.Rand, tier string, run int) *core.Case {
 	// registered after the session was created must be reachable through it
 	if c.Batch == "" && r.IntN(3) == 0 {
 		c.Batch = "second-phase"
-		c.Params["break"] = r.IntN(3)       // 0 no; 1 reset, then quiescence; 2 reset racing with the requests
+		c.Params["break"] = r.IntN(3) // 0 no; 1 reset, then quiescence; 2 reset racing with the requests
 		c.Params["break_addr"] = r.IntN(servers + 1)
 		c.Params["late"] = r.IntN(2)
 		c.Params["late_extra"] = r.IntN(3)
@@ -88,11 +92,11 @@ func (c19) Gen(r *rand.Rand, tier string, run int) *core.Case {
 }
 
 type c19state struct {
-	addrs   []string
-	broken  string // endpoint whose connection was reset
-	racing  bool
-	phase2  int64 // sequence number at which the second phase started
-	lateOK  bool
+	addrs  []string
+	broken string // endpoint whose connection was reset
+	racing bool
+	phase2 int64 // sequence number at which the second phase started
+	lateOK bool
 }
 
 func (c19) Run(c *core.Case, env *core.Env) {
@@ -153,6 +157,29 @@ func (c19) Run(c *core.Case, env *core.Env) {
 		}
 		st.addrs = append(st.addrs, addr)
 	}
+	if c.P("testrange", 0) == 1 {
+		// a registered service that only advertises addresses of the range
+		// the library refuses to dial: a request for it cannot succeed, and
+		// must say so
+		cl, err := Connect("registrar", "u", "p")
+		var meta object.MetaObject
+		if err == nil {
+			meta, err = bus.GetMetaObject(cl, 1, 1)
+		}
+		if err == nil {
+			dir := services.MakeServiceDirectory(nil, bus.NewProxy(cl, meta, 1, 1))
+			var id uint32
+			id, err = dir.RegisterService(services.ServiceInfo{Name: "ProbeTestRange", MachineId: "m", ProcessId: 7,
+				Endpoints: []string{"tcp://198.18.0.1:9559"}, SessionId: "s"})
+			if err == nil {
+				err = dir.ServiceReady(id)
+			}
+		}
+		if err != nil {
+			env.Violate("harness/setup", "test range service: %v", err)
+			return
+		}
+	}
 	env.S.Quiesce()
 	// the session under test
 	zzsim.SetNode("client")
@@ -185,69 +212,69 @@ func (c19) Run(c *core.Case, env *core.Env) {
 		env.Probe("service-registered-while-the-session-was-created")
 	}
 	phase := func(kind string) {
-	by := map[int][]core.Op{}
-	var actors []int
-	for _, op := range c.Ops {
-		if op.Kind != kind {
-			continue
+		by := map[int][]core.Op{}
+		var actors []int
+		for _, op := range c.Ops {
+			if op.Kind != kind {
+				continue
+			}
+			if _, ok := by[op.Actor]; !ok {
+				actors = append(actors, op.Actor)
+			}
+			by[op.Actor] = append(by[op.Actor], op)
 		}
-		if _, ok := by[op.Actor]; !ok {
-			actors = append(actors, op.Actor)
-		}
-		by[op.Actor] = append(by[op.Actor], op)
-	}
-	var wg sync.WaitGroup
-	for _, a := range actors {
-		wg.Add(1)
-		go func(a int) {
-			defer wg.Done()
-			zzsim.SetNode("client")
-			for i, op := range by[a] {
-				name := fmt.Sprintf("Probe%d", op.X)
-				if int(op.X) > c.P("servers", 1) {
-					if !st.lateOK {
-						continue
+		var wg sync.WaitGroup
+		for _, a := range actors {
+			wg.Add(1)
+			go func(a int) {
+				defer wg.Done()
+				zzsim.SetNode("client")
+				for i, op := range by[a] {
+					name := fmt.Sprintf("Probe%d", op.X)
+					if int(op.X) > c.P("servers", 1) {
+						if !st.lateOK {
+							continue
+						}
+						name = "ProbeLate"
 					}
-					name = "ProbeLate"
-				}
-				h := env.Invoke(a+1, "proxy", name)
-				p, err := sess.Proxy(name, 1)
-				env.Return(h, "", err)
-				if err != nil {
-					continue
-				}
-				if op.Y == 1 {
-					h := env.Invoke(a+1, "object", name)
-					q, err := sess.Object(bus.ObjectReference(p))
+					h := env.Invoke(a+1, "proxy", name)
+					p, err := sess.Proxy(name, 1)
 					env.Return(h, "", err)
 					if err != nil {
 						continue
 					}
-					p = q
-				}
-				tok := probe.Token{Client: int32(a + 1), Seq: int32(i), Nonce: int64(op.X), Text: "s"}
-				h = env.Invoke(a+1, "call", fmt.Sprintf("%s@%s", tokOf(tok).Key(), name))
-				ret, err := probe.MakeProbe(sess, p).Echo(tok)
-				env.Return(h, tokOf(ret).String(), err)
-				if c.P("subscribe", 0) == 1 && err == nil && (i+a)%2 == 0 {
-					// a working proxy also carries subscriptions: the
-					// bookkeeping of the registrations is per connection,
-					// shared by every proxy the session hands out
-					h = env.Invoke(a+1, "subscribe", fmt.Sprintf("%s@%s", tokOf(tok).Key(), name))
-					cancel, ch, err := probe.MakeProbe(sess, p).SubscribeTick()
-					env.Return(h, "", err)
-					if err == nil {
-						go func() {
-							for range ch {
-							}
-						}()
-						cancel()
+					if op.Y == 1 {
+						h := env.Invoke(a+1, "object", name)
+						q, err := sess.Object(bus.ObjectReference(p))
+						env.Return(h, "", err)
+						if err != nil {
+							continue
+						}
+						p = q
+					}
+					tok := probe.Token{Client: int32(a + 1), Seq: int32(i), Nonce: int64(op.X), Text: "s"}
+					h = env.Invoke(a+1, "call", fmt.Sprintf("%s@%s", tokOf(tok).Key(), name))
+					ret, err := probe.MakeProbe(sess, p).Echo(tok)
+					env.Return(h, tokOf(ret).String(), err)
+					if c.P("subscribe", 0) == 1 && err == nil && (i+a)%2 == 0 {
+						// a working proxy also carries subscriptions: the
+						// bookkeeping of the registrations is per connection,
+						// shared by every proxy the session hands out
+						h = env.Invoke(a+1, "subscribe", fmt.Sprintf("%s@%s", tokOf(tok).Key(), name))
+						cancel, ch, err := probe.MakeProbe(sess, p).SubscribeTick()
+						env.Return(h, "", err)
+						if err == nil {
+							go func() {
+								for range ch {
+								}
+							}()
+							cancel()
+						}
 					}
 				}
-			}
-		}(a)
-	}
-	wg.Wait()
+			}(a)
+		}
+		wg.Wait()
 	}
 	phase("proxy")
 	env.S.Quiesce()
@@ -305,7 +332,7 @@ func (c19) Run(c *core.Case, env *core.Env) {
 	phase("proxy2")
 	env.S.Quiesce()
 	// all proxies still work afterwards: one more call per service
-	for i := 0; i <= len(st.addrs)+1; i++ {
+	for i := 0; i <= len(st.addrs)+2; i++ {
 		name := fmt.Sprintf("Probe%d", i)
 		if i == len(st.addrs) {
 			if !st.lateOK {
@@ -318,6 +345,12 @@ func (c19) Run(c *core.Case, env *core.Env) {
 				continue
 			}
 			name = "ProbeEarly"
+		}
+		if i == len(st.addrs)+2 {
+			if c.P("testrange", 0) == 0 {
+				continue
+			}
+			name = "ProbeTestRange"
 		}
 		zzsim.SetNode("client")
 		h := env.Invoke(90, "proxy", name)
@@ -357,7 +390,9 @@ func (c19) Check(c *core.Case, env *core.Env, res zzsim.Result, v *core.Verdict)
 				name = n
 			}
 			idx, _ := strconv.Atoi(strings.TrimPrefix(name, "Probe"))
-			if st.racing && h.Client > 100 && h.Call >= st.phase2 && name != "ProbeLate" && idx < len(st.addrs) && st.addrs[idx] == st.broken {
+			if name == "ProbeTestRange" {
+				env.Probe("request-for-an-unreachable-service-refused")
+			} else if st.racing && h.Client > 100 && h.Call >= st.phase2 && name != "ProbeLate" && idx < len(st.addrs) && st.addrs[idx] == st.broken {
 				env.Probe("request-failed-while-racing-with-reset")
 			} else if c.P("many", 0) == 1 && strings.Contains(h.Err, "message dropped: consumer blocked") {
 				// cause-specific (known finding): the server said that it shed
